@@ -182,6 +182,11 @@ def handle_quic_packet(packet: Packet, keylog, quic_sessions: list[QuicSession],
 def run():
     """Starts the program"""
     args = arg_parser_init()
+    # start from fresh module state: nothing processed by an earlier run() in this interpreter may leak in
+    del server_ports[2:]
+    keylog.clear()
+    sessions.clear()
+    quic_sessions.clear()
     keep_original_ports = args.keep_original_ports
     portmap = get_port_map(args)
 
